@@ -532,8 +532,8 @@ Proof. reflexivity. Qed.
 Lemma model_def_not_indexed fs h : hinv fs h -> h_indexable h <> Some true ->
   match model_def fs h with Some (_, true) => False | _ => True end.
 Proof.
-  intros Hi N. unfold model_def. destruct (def_cases fs h Hi) as [(-> & ->)|(s & b & -> & Eb)]; auto.
-  rewrite Eb. destruct b; auto. congruence.
+  intros Hi N. unfold model_def. destruct (def_cases fs h Hi) as [(Ea & Eb)|(s & b & Ea & Eb)]; rewrite Ea; auto.
+  rewrite Eb. destruct b; auto.
 Qed.
 
 Lemma get_flight_refines fs h id fs1 h1 r : Inv (mkW fs (Some h)) -> NoDup (ids_of (cur_items fs h)) ->
@@ -557,7 +557,7 @@ Proof.
     rewrite Eb. exists s. congruence. }
   destruct Hd as (s & ->).
   assert (Habs : abs (mkW fs' (Some h')) = abs (mkW fs (Some h))).
-  { unfold abs; cbn. now rewrite Afs, Ah. }
+  { unfold abs; cbn [w_fs w_h option_map]. now rewrite Afs, Ah. }
   pose proof (inv_handle _ I' _ eq_refl) as Hi'; cbn in Hi'.
   rewrite <- Ecur in *.
   destruct (h_src h') as [cap|p|p] eqn:Es'.
@@ -580,4 +580,143 @@ Proof.
     + apply mk_table_lookup_none in T; auto. injection E as <- <- <-. split; auto. rewrite Habs. f_equal.
       now rewrite sfind_none.
   - unfold hinv in Hi'. rewrite Es' in Hi'. tauto.
+Qed.
+
+(* ------------------------------------------------------------------------------------------- *)
+(* one step, then whole histories                                                              *)
+(* ------------------------------------------------------------------------------------------- *)
+Definition no_merge (o : op) : Prop := match o with Merge _ _ _ => False | _ => True end.
+
+(* "additions with distinct identifiers": when an identifier is looked up, the store holds no
+   identifier twice *)
+Definition sop_ok (s : sworld) (o : op) : Prop :=
+  match o, s_h s with
+  | GetFlight _, Some h => NoDup (sids (s_items s h))
+  | _, _ => True
+  end.
+
+Lemma Inv_open fs h : Inv (mkW fs None) -> hinv fs h -> Inv (mkW fs (Some h)).
+Proof.
+  intros I H. split; cbn.
+  - intros p n L. destruct (inv_files _ I _ _ L) as (f & E & Ok & Fr). exists f. repeat split; auto.
+    apply fresh_left. now apply (fresh_none p).
+  - intros h0 E0. now injection E0 as <-.
+Qed.
+
+Lemma Inv_close fs h : Inv (mkW fs (Some h)) -> all_fresh fs -> Inv (mkW fs None).
+Proof.
+  intros I Fr. split; cbn; [|discriminate].
+  intros p n L. destruct (inv_files _ I _ _ L) as (f & E & Ok & _). exists f. repeat split; auto.
+  apply fresh_left. subst n. eauto.
+Qed.
+
+Lemma map_fst_strip l : map fst (map strip l) = map tag l.
+Proof. rewrite map_map. reflexivity. Qed.
+
+Lemma nth_error_strip l i : nth_error (map strip l) i = option_map strip (nth_error l i).
+Proof. apply nth_error_map. Qed.
+
+Theorem step_refines w o w' r : Inv w -> sop_ok (abs w) o -> no_merge o ->
+  step fixed_cfg w o = (w', r) -> Inv w' /\ spec_step (abs w) o = (abs w', coarse r).
+Proof.
+  intros I Ok Nm E. destruct w as [fs [h|]].
+  - (* a live handle *)
+    pose proof (inv_handle _ I _ eq_refl) as Hi; cbn in Hi.
+    destruct o; try contradiction Nm; cbn [step w_h w_fs] in E.
+    + injection E as <- <-. auto.
+    + injection E as <- <-. auto.
+    + injection E as <- <-. auto.
+    + injection E as <- <-. auto.
+    + (* Add *)
+      destruct (add fixed_cfg fs h t) as [[fs1 h1] r1] eqn:Ea. injection E as <- <-.
+      eapply add_refines; eauto.
+    + (* Get *)
+      destruct (get_item_spec fs h i Hi (Inv_files_ok _ I)) as (c & G1 & G2 & G3).
+      destruct (get_item fs h i) as [h1 rr]. cbn in G1, G2, G3. subst h1 rr. injection E as <- <-.
+      split; [now apply Inv_set_cache|]. rewrite abs_set_cache.
+      unfold spec_step. cbn [abs s_h w_h option_map].
+      change (mkSW (abs_fs (w_fs (mkW fs (Some h)))) (Some (abs_h h))) with (abs (mkW fs (Some h))).
+      rewrite (s_items_abs (mkW fs (Some h)) h eq_refl Hi). cbn [w_fs]. rewrite nth_error_strip.
+      destruct (nth_error (cur_items fs h) i); reflexivity.
+    + (* Len *)
+      injection E as <- <-. split; auto. unfold spec_step. cbn [abs s_h w_h option_map].
+      change (mkSW (abs_fs (w_fs (mkW fs (Some h)))) (Some (abs_h h))) with (abs (mkW fs (Some h))).
+      rewrite (s_items_abs (mkW fs (Some h)) h eq_refl Hi). cbn [w_fs].
+      now rewrite map_length, (store_len_cur fs h Hi).
+    + (* Iter *)
+      rewrite (store_len_cur fs h Hi) in E. unfold seqn in E.
+      destruct (iter_go_spec fs (Inv_files_ok _ I) (length (cur_items fs h)) 0 h keeps [] Hi eq_refl)
+        as (c & G1 & G2 & G3).
+      destruct (iter_go fs h (seq 0 (length (cur_items fs h))) keeps []) as [h1 rr].
+      cbn in G1, G2, G3. subst h1 rr. injection E as <- <-.
+      split; [now apply Inv_set_cache|]. rewrite abs_set_cache.
+      unfold spec_step. cbn [abs s_h w_h option_map].
+      change (mkSW (abs_fs (w_fs (mkW fs (Some h)))) (Some (abs_h h))) with (abs (mkW fs (Some h))).
+      rewrite (s_items_abs (mkW fs (Some h)) h eq_refl Hi). cbn [w_fs].
+      now rewrite map_fst_strip.
+    + (* Sync *)
+      unfold spec_step. cbn [abs s_h w_h option_map]. replace (sh_mode (abs_h h)) with (h_mode h) by reflexivity.
+      destruct (reindex_ok fs h I) as (fs' & h' & Er & I' & Afs & Ah & _).
+      rewrite Er in E.
+      destruct (h_mode h); injection E as <- <-; split; auto.
+      all: unfold abs; cbn [w_fs w_h option_map]; now rewrite Afs, Ah.
+    + (* Close *)
+      destruct (reindex_ok fs h I) as (fs' & h' & Er & I' & Afs & Ah & _ & _ & _ & _ & _ & Fr).
+      rewrite Er in E. injection E as <- <-. split; [eapply Inv_close; eauto|].
+      unfold spec_step, abs; cbn [w_fs w_h option_map s_h s_fs]. now rewrite Afs.
+    + (* GetFlight *)
+      destruct (get_flight fixed_cfg fs h id) as [[fs1 h1] r1] eqn:Eg. injection E as <- <-.
+      eapply get_flight_refines; eauto.
+      cbn in Ok. change (mkSW (abs_fs fs) (Some (abs_h h))) with (abs (mkW fs (Some h))) in Ok.
+      rewrite (s_items_abs (mkW fs (Some h)) h eq_refl Hi), sids_strip in Ok. exact Ok.
+    + (* Evict *)
+      injection E as <- <-. destruct (do_evict_shape keep h) as (c & Ec).
+      pose proof (hinv_do_evict fs h keep Hi) as H2. rewrite Ec in *.
+      split; [now apply Inv_set_cache|]. now rewrite abs_set_cache.
+  - (* no handle *)
+    destruct o; try contradiction Nm; cbn [step w_h w_fs] in E;
+      try (injection E as <- <-; split; [assumption|reflexivity]).
+    + (* Create *)
+      unfold spec_step; cbn [abs s_h w_h w_fs option_map s_fs]. rewrite slookup_abs.
+      destruct (flookup p fs) eqn:L; injection E as <- <-; cbn [option_map]; [auto|].
+      split; [|reflexivity]. apply Inv_open; auto. unfold hinv; cbn. repeat split; auto.
+    + (* CreateMem *)
+      injection E as <- <-. split; [|reflexivity]. apply Inv_open; auto. unfold hinv; cbn. intuition.
+    + (* OpenR *)
+      unfold spec_step; cbn [abs s_h w_h w_fs option_map s_fs]. rewrite slookup_abs.
+      destruct (flookup p fs) as [n|] eqn:L; cbn [option_map]; [|injection E as <- <-; auto].
+      destruct (inv_files _ I _ _ L) as (f & -> & Okf & Fr). injection E as <- <-.
+      split; [|reflexivity]. apply Inv_open; auto. unfold hinv, open_file; cbn.
+      exists f. repeat split; auto; try discriminate; try congruence.
+      * intros i x [].
+      * now destruct (f_hasidx f).
+    + (* OpenA *)
+      unfold spec_step; cbn [abs s_h w_h w_fs option_map s_fs]. rewrite slookup_abs.
+      destruct (flookup p fs) as [n|] eqn:L; cbn [option_map]; [|injection E as <- <-; auto].
+      destruct (inv_files _ I _ _ L) as (f & -> & Okf & Fr). injection E as <- <-.
+      split; [|reflexivity]. apply Inv_open; auto. unfold hinv, open_file; cbn.
+      exists f. repeat split; auto; try discriminate; try congruence.
+      * intros i x [].
+      * now destruct (f_hasidx f).
+Qed.
+
+Fixpoint hist_ok (s : sworld) (ops : list op) : Prop :=
+  match ops with
+  | [] => True
+  | o :: r => no_merge o /\ sop_ok s o /\ hist_ok (fst (spec_step s o)) r
+  end.
+
+Theorem run_refines ops : forall w, Inv w -> hist_ok (abs w) ops ->
+  Inv (fst (run fixed_cfg w ops)) /\
+  abs (fst (run fixed_cfg w ops)) = fst (spec_run (abs w) ops) /\
+  map coarse (snd (run fixed_cfg w ops)) = snd (spec_run (abs w) ops).
+Proof.
+  induction ops as [|o r IH]; intros w I H; cbn [run spec_run].
+  - cbn. auto.
+  - destruct H as (Nm & Ok & Hr).
+    destruct (step fixed_cfg w o) as [w1 x] eqn:Es.
+    destruct (step_refines w o w1 x I Ok Nm Es) as (I1 & Sp). rewrite Sp in *. cbn [fst] in Hr.
+    destruct (IH w1 I1 Hr) as (I2 & A2 & O2).
+    destruct (run fixed_cfg w1 r) as [w2 xs]. destruct (spec_run (abs w1) r) as [s2 ys].
+    cbn [fst snd map] in *. split; [assumption|]. split; [assumption|]. now f_equal.
 Qed.
